@@ -686,8 +686,9 @@ class SQLTransactionState:
 
     def apply(self, query_unit: SQLQueryUnit) -> None:
         if query_unit.tx_action == TxAction.COMMIT:
+            if self.in_tx:
+                self.settings = self.in_tx_settings  # type: ignore
             self.in_tx = False
-            self.settings = self.in_tx_settings  # type: ignore
             self.in_tx_settings = None
             self.in_tx_local_settings = None
             self.savepoints.clear()
